@@ -301,7 +301,7 @@ def obligations(case):
             out = I.call_method(st.fork(), ref, meth, CallArgs(pos))
         except Unsupported as e:
             obs.append(Obligation(fn + '/supported', [], z3.BoolVal(False), prop='C03', func=fn, path=str(e)[:200],
-                                  info={'case': 'null_archive', 'op': label}))
+                                  info={'case': 'null_archive', 'op': label, 'unsupported': str(e)}))
             continue
         for (s, r) in out:
             path = '/'.join(s.labels) or 'straight'
@@ -365,5 +365,5 @@ def obligations(case):
                                   info={'case': 'dict_archive', 'op': '__asdict__'}))
     except Unsupported as e:
         obs.append(Obligation(fn0 + '/supported', [], z3.BoolVal(False), prop='C08', func=fn0, path=str(e)[:200],
-                              info={'case': 'abc.archive', 'op': 'setup'}))
+                              info={'case': 'abc.archive', 'op': 'setup', 'unsupported': str(e)}))
     return obs
